@@ -81,6 +81,11 @@ func suiteC14(cfg Config, res *Result) {
 			// constructs that render through a scratch buffer, nested, and values that print themselves
 			src = rng.Pick(c14Focus) + src
 		}
+		if i%5 == 1 {
+			// outputs that begin or end with bytes a writer-side tidy-up might touch
+			edge := []string{"\ufeff", "\ufeff\ufeff", "{{ bom }}", "\xff\xfe", "\x00", "\n", "\r\n", " ", "\t"}
+			src = rng.Pick(edge) + src + rng.Pick(append(edge, "", ""))
+		}
 		pc.Src = src + "{% macro xm() export %}{% endmacro %}"
 		set, _ := pc.buildSet()
 		var tpl *pongo2.Template
@@ -103,6 +108,7 @@ func suiteC14(cfg Config, res *Result) {
 			c["dur"] = 90 * time.Second
 			c["month"] = time.March
 			c["ll"] = []string{"x", "y", "z"}
+			c["bom"] = "\ufeffb"
 			switch zz {
 			case 2:
 				c["user-id"] = 1 // not an identifier: every entry point rejects the context
